@@ -169,16 +169,32 @@ class SettingsHistory(object):
         toks = [str(t) for t in op["tokens"]]
         before = self.path.read_bytes()
         exp = model_set(self.model, toks)
+        # token lists evo refuses with an exception (nothing written): non-finite numbers (inf, nan, 1e400) and a numeric
+        # value for plot_seaborn_palette.  Any other token list of the grammar is an edit that has to go through.
+        def _nonfinite(t):
+            try:
+                return not math.isfinite(float(t))
+            except ValueError:
+                return False
+        refusable = any(_nonfinite(t) for t in toks) or any(
+            a == "plot_seaborn_palette" and _is_num(b) for a, b in zip(toks, toks[1:]))
         if op.get("cli") and not any(t.startswith("-") and not _is_num(t) for t in toks):
             # the same edit as 'evo_config set <tokens>' (everything after 'set' is handed to set_config)
-            if not toks or not self._evo_config(["set"] + toks, "set"):
+            if not toks:
+                return
+            if not self._evo_config(["set"] + toks, "set"):
+                if not refusable:
+                    raise Mismatch("evo_config set %s failed although the tokens follow the documented grammar" % toks, observed="spurious_refusal", after="set")
                 return
         else:
             try:
                 main_config.set_config(self.path, toks)
-            except Exception:  # noqa  a refused edit is not a violation as long as nothing was written
+            except Exception as e:  # noqa  a refused edit is not a violation as long as nothing was written
                 if self.path.read_bytes() != before:
                     raise Mismatch("set_config raised but the file changed", observed="refused_but_changed", after="set")
+                if not refusable:
+                    raise Mismatch("set_config(%s) raised %s: %s although the tokens follow the documented grammar" % (toks, type(e).__name__, str(e)[:120]),
+                                   observed="spurious_refusal", after="set")
                 return
         if exp == "refuse":
             # the implementation accepted what the model refuses: judge only the invariants
